@@ -89,7 +89,7 @@ func runCheck(repo, verif, prop, tier string, secs int, keep bool) int {
 			trusted = append(trusted, n+" ("+ct.Trusted+")")
 			continue
 		}
-		if strings.HasPrefix(n, "iface:") {
+		if strings.HasPrefix(n, "iface:") || strings.HasPrefix(n, "ext:") {
 			continue
 		}
 		names = append(names, n)
@@ -123,12 +123,32 @@ func runCheck(repo, verif, prop, tier string, secs int, keep bool) int {
 			total++
 			continue
 		}
+		// vacuity: a contradictory precondition, or a function none of whose
+		// exits is reachable, means the obligations say nothing
+		nReach, nDead := 0, 0
 		for _, o := range r.Obligations {
-			if o.MustFail {
+			if !o.MustFail {
+				continue
+			}
+			if strings.Contains(o.Name, "#vacuity:pre-sat") {
 				if o.Status == "discharged" {
-					fmt.Printf("VACUOUS obligation=%s (%s)\n", o.Name, o.Desc)
+					fmt.Printf("VACUOUS obligation=%s: the precondition is contradictory\n", o.Name)
 					broken++
 				}
+				continue
+			}
+			nReach++
+			if o.Status == "discharged" {
+				nDead++
+				fmt.Printf("NOTE unreachable exit %s at %s\n", o.Name, o.Pos)
+			}
+		}
+		if nReach > 0 && nDead == nReach {
+			fmt.Printf("VACUOUS function=%s: no exit is reachable under the contract\n", r.Func)
+			broken++
+		}
+		for _, o := range r.Obligations {
+			if o.MustFail {
 				continue
 			}
 			total++
@@ -181,11 +201,11 @@ func runCheck(repo, verif, prop, tier string, secs int, keep bool) int {
 		fmt.Println("govc: zero obligations — check is vacuous")
 		return 2
 	}
-	if broken > 0 {
-		return 2
-	}
 	if violations > 0 {
 		return 1
+	}
+	if broken > 0 {
+		return 2
 	}
 	return 0
 }
